@@ -1254,6 +1254,49 @@ func ruleBrokerListeners(c *Ctx) {
 	})
 	if closesSync {
 		c.R.Hold("R-RES/brokerls", p.Pos(where), cl.Name, "Close closes the recorded listeners itself", "each element of "+p.FieldName(regField)+" is closed in Close's own goroutine", true)
+		// and every one of them: the loop that closes them is not left early
+		var loop *ast.RangeStmt
+		for cur := p.Parent(where); cur != nil && loop == nil; cur = p.Parent(cur) {
+			if rs, ok := cur.(*ast.RangeStmt); ok {
+				loop = rs
+			}
+			if _, isFn := cur.(*ast.FuncDecl); isFn {
+				break
+			}
+		}
+		if loop != nil {
+			var early ast.Node
+			var visit func(n ast.Node, breakable bool)
+			visit = func(n ast.Node, breakable bool) {
+				ast.Inspect(n, func(x ast.Node) bool {
+					if x == nil || early != nil {
+						return false
+					}
+					switch s := x.(type) {
+					case *ast.FuncLit:
+						return false
+					case *ast.ReturnStmt:
+						early = s
+					case *ast.BranchStmt:
+						if s.Tok == token.GOTO || (s.Tok == token.BREAK && (s.Label != nil || !breakable)) {
+							early = s
+						}
+					case *ast.ForStmt, *ast.RangeStmt, *ast.SwitchStmt, *ast.TypeSwitchStmt, *ast.SelectStmt:
+						if x != n {
+							visit(x, true)
+							return false
+						}
+					}
+					return true
+				})
+			}
+			visit(loop.Body, false)
+			if early != nil {
+				c.R.Violate("R-RES/brokerls", p.Pos(early), cl.Name, "Close closes every recorded listener", "the loop that closes the recorded listeners is left at this statement (the Close of a Unix listener whose socket file is already gone reports an error): the listeners not yet visited stay open and their socket files stay behind", nil)
+			} else {
+				c.R.Hold("R-RES/brokerls", p.Pos(loop), cl.Name, "Close closes every recorded listener", "no return, break or goto leaves the closing loop", true)
+			}
+		}
 	} else {
 		c.R.Violate("R-RES/brokerls", p.Pos(cl.Node()), cl.Name, "Close closes the recorded listeners itself",
 			"GRPCBroker.Close does not close the listeners recorded in "+p.FieldName(regField)+" in its own goroutine: their removal is left to the serving goroutines, which a plugin process that exits right after Close never gets to run", nil)
